@@ -332,6 +332,8 @@ class Interp:
             if old is None:
                 old = Top()
             st.cells[cell] = set_at(old, path, val)
+        if src_loc is not None and src_loc != loc:
+            st.relocate_guards(src_loc, loc)
         if isinstance(val, Int):
             if lin is not None and not lin.is_const() and not val.is_const():
                 if loc not in lin.terms:
@@ -503,7 +505,25 @@ class Interp:
                 if signed and v > thi:
                     v -= (1 << bits)
                 return Int.const(v, bits, signed), None, None
+            # x op c with c a low-bit mask (2^k-1) or a sign-extension constant (-2^k), x within one 2^k block
+            for (x, cst) in ((a, b), (b, a)):
+                if cst.is_const() and x.lo >= 0:
+                    cv = cst.lo
+                    if op == "BitAnd" and cv >= 0 and (cv & (cv + 1)) == 0:
+                        k = cv.bit_length()
+                        if (x.lo >> k) == (x.hi >> k):
+                            return self.mk_int(x.lo & cv, x.hi & cv, bits, signed), None, None
+                    if op == "BitOr" and signed and cv < 0 and ((-cv) & ((-cv) - 1)) == 0:
+                        k = (-cv).bit_length() - 1
+                        mk = (1 << k) - 1
+                        if (x.lo >> k) == (x.hi >> k):
+                            return self.mk_int(cv + (x.lo & mk), cv + (x.hi & mk), bits, signed), None, None
             if op == "BitAnd":
+                for (x, cst) in ((a, b), (b, a)):
+                    if cst.is_const() and x.lo >= 0 and cst.lo > 0 and (cst.lo & (cst.lo - 1)) == 0:
+                        j = cst.lo.bit_length() - 1
+                        if (x.lo >> j) == (x.hi >> j):
+                            return Int.const(((x.lo >> j) & 1) << j, bits, signed), None, None
                 if a.lo >= 0 and b.lo >= 0:
                     return self.mk_int(0, min(a.hi, b.hi), bits, signed, max(a.tz, b.tz)), None, None
                 if a.lo >= 0:
@@ -658,6 +678,7 @@ class Interp:
                     raise Infeasible()
                 st.set_leaf(var, Int.const(value, leaf.bits, leaf.signed))
                 st.propagate(seed=LinForm.var(var) - value, eq=True)
+                st.apply_guard(var, value)
             else:
                 if leaf.is_const() and leaf.lo == value:
                     raise Infeasible()
@@ -667,6 +688,9 @@ class Interp:
                 elif leaf.hi == value:
                     st.set_leaf(var, _tighten(leaf, leaf.lo, value - 1))
                     st.propagate(seed=LinForm({var: 1}, -(value - 1)))
+                l2 = st.leaf(var)
+                if l2 is not None and l2.is_const() and not leaf.is_const():
+                    st.apply_guard(var, l2.lo)
         d = st.defs.get(var)
         if d is None:
             return
@@ -692,6 +716,8 @@ class Interp:
                     raise Infeasible()
                 cell, path = loc
                 st.cells[cell] = set_at(st.cells[cell], path, nv)
+                if isinstance(nv, Enum) and len(nv.variants) == 1 and len(ev.variants) > 1:
+                    st.apply_guard(loc, ("v", next(iter(nv.variants))))
         elif d[0] == "isvar":
             # boolean "enum at loc is (polarity) variant idx"
             if value in (0, 1):
@@ -705,3 +731,5 @@ class Interp:
                         raise Infeasible()
                     cell, path = loc
                     st.cells[cell] = set_at(st.cells[cell], path, nv)
+                    if isinstance(nv, Enum) and len(nv.variants) == 1 and len(ev.variants) > 1:
+                        st.apply_guard(loc, ("v", next(iter(nv.variants))))
